@@ -63,7 +63,7 @@ def scalar(ch: Choices, label: str, hostile: bool) -> tuple[str, int]:
 
 
 # -- points -------------------------------------------------------------------
-POINTS = ["point-infinity", "point-infinity-alias", "point-off-curve", "point-x-ge-p", "point-y-ge-p", "point-negative-x", "point-not-a-tuple"]
+POINTS = ["point-infinity", "point-off-curve", "point-x-ge-p", "point-y-ge-p", "point-negative-x", "point-not-a-tuple"]
 
 
 def point(ch: Choices, label: str, hostile: bool) -> tuple[str, Any]:
@@ -72,7 +72,7 @@ def point(ch: Choices, label: str, hostile: bool) -> tuple[str, Any]:
         return "valid", (Q, G, secp256k1.negate(Q))[ch.draw(3, label + ".valid")]
     cls = ch.pick(POINTS, label + ".cls")
     return cls, {
-        "point-infinity": INF, "point-infinity-alias": (Q[0], 0), "point-off-curve": (Q[0], Q[1] % (P - 1) + 1),
+        "point-infinity": (INF, (Q[0], 0))[ch.draw(2, label + ".alias")], "point-off-curve": (Q[0], Q[1] % (P - 1) + 1),
         "point-x-ge-p": (Q[0] + P, Q[1]), "point-y-ge-p": (Q[0], Q[1] + P), "point-negative-x": (Q[0] - P, Q[1]),
         "point-not-a-tuple": [Q[0], Q[1]],
     }[cls]
